@@ -128,7 +128,16 @@ PruneFails(e) ==
             /\ \A i \in 1..NB : LET k == bef[i].k IN
                  /\ SetOf(e.sharded[i].l) = {a \in SetOf(bef[i].l) : ~Cens(C(st, Pred(k, a)))}
                  /\ SetOf(e.sharded[i].r) = {b \in SetOf(bef[i].r) : ~Cens(C(st, Succ(k, b)))}
-  IN {c \in {"P1", "P2"} : ~(CASE c = "P1" -> P1 [] c = "P2" -> P2)}
+      \* the library's own flow (table and list of seen k-mers both from filter_kmers at threshold flow_thr, the list handed
+      \* on as returned): with the whole read set in one shard every extension target was seen, so exactly the extensions
+      \* towards rejected k-mers go - the fully pruned reference table
+      FT == RefTable(e.K, st, e.flow_thr, e.reads)
+      FP == Prune(st, FT, DOMAIN FT)
+      P4 == /\ {e.flow[i].k : i \in 1..Len(e.flow)} = DOMAIN FP /\ Len(e.flow) = Cardinality(DOMAIN FP)
+            /\ \A i \in 1..Len(e.flow) : e.flow[i].k \in DOMAIN FP =>
+                  /\ SetOf(e.flow[i].l) = FP[e.flow[i].k].l /\ SetOf(e.flow[i].r) = FP[e.flow[i].k].r
+                  /\ e.flow[i].d = FP[e.flow[i].k].d
+  IN {c \in {"P1", "P2", "P4"} : ~(CASE c = "P1" -> P1 [] c = "P2" -> P2 [] c = "P4" -> P4)}
 
 FixextsFails(e) ==
   IF e.panic # "" THEN {"PANIC"} ELSE
